@@ -2,10 +2,15 @@ package main
 
 import (
 	"context"
+	"errors"
 	"math/rand"
 	"net"
+	"net/http"
+	"net/http/httptest"
+	"net/url"
 	"strconv"
 	"strings"
+	"sync"
 	"time"
 
 	httppkg "github.com/fatedier/frp/pkg/util/http"
@@ -23,7 +28,12 @@ import (
 //	mdel <id>                              => - | unknown         (Listener.Close)
 //	mget <host> <path> <user>              => <id> | none         (Muxer.getListener)
 //	canon <host>                           => <canonical host> | err
+//	spell <name> <dot 0|1> <port|->        => <canonical host> | err   (CanonicalHost of name[.][:port])
+//	hreq  <name> <dot> <port|-> <path> <user> => <id> | none      (a real request through HTTPReverseProxy.ServeHTTP with
+//	                                          Host: name[.][:port]; <id> = the route whose CreateConnFn was asked for a connection)
 type routerState struct {
+	hitMu   sync.Mutex
+	hits    []string
 	routers *vhost.Routers
 	rp      *vhost.HTTPReverseProxy
 	mux     *vhost.Muxer
@@ -63,8 +73,15 @@ func routerExec(tok []string) string {
 		routerReset()
 		return "-"
 	case "add":
+		st, id := rst, tok[4]
 		err := rst.rp.Register(vhost.RouteConfig{
 			Domain: unhx(tok[1]), Location: unhx(tok[2]), RouteByHTTPUser: unhx(tok[3]), RewriteHost: tok[4],
+			CreateConnFn: func(string) (net.Conn, error) {
+				st.hitMu.Lock()
+				st.hits = append(st.hits, id)
+				st.hitMu.Unlock()
+				return nil, errors.New("recording backend")
+			},
 		})
 		if err != nil {
 			return "conflict"
@@ -104,6 +121,20 @@ func routerExec(tok []string) string {
 			return "none"
 		}
 		return strconv.Itoa(rst.ids[l])
+	case "spell":
+		h, err := httppkg.CanonicalHost(routerSpell(tok[1], tok[2], tok[3]))
+		if err != nil {
+			return "err"
+		}
+		return hx(h)
+	case "hreq":
+		rst.hitMu.Lock()
+		rst.hits = nil
+		rst.hitMu.Unlock()
+		routerServe(rst.rp, routerSpell(tok[1], tok[2], tok[3]), unhx(tok[4]), unhx(tok[5]))
+		rst.hitMu.Lock()
+		defer rst.hitMu.Unlock()
+		return routerHits(rst.hits)
 	case "canon":
 		h, err := httppkg.CanonicalHost(unhx(tok[1]))
 		if err != nil {
@@ -112,6 +143,78 @@ func routerExec(tok []string) string {
 		return hx(h)
 	}
 	return "bad-op"
+}
+
+// routerSpell builds the Host value name[.][:port] from the op tokens.
+func routerSpell(name, dot, port string) string {
+	h := unhx(name)
+	if dot == "1" {
+		h += "."
+	}
+	if port != "-" {
+		h += ":" + unhx(port)
+	}
+	return h
+}
+
+// routerServe sends one request through the real ServeHTTP (no sockets: the route's CreateConnFn
+// records who was asked for a backend connection and refuses, the client gets the 404 page).
+func routerServe(rp *vhost.HTTPReverseProxy, host, path, user string) int {
+	req := &http.Request{
+		Method: "GET", URL: &url.URL{Path: path}, Host: host, Header: http.Header{},
+		Proto: "HTTP/1.1", ProtoMajor: 1, ProtoMinor: 1, RemoteAddr: "127.0.0.1:9",
+	}
+	if user != "" {
+		req.SetBasicAuth(user, "")
+	}
+	rw := httptest.NewRecorder()
+	rp.ServeHTTP(rw, req.WithContext(context.Background()))
+	return rw.Code
+}
+
+// routerHits canonicalises the recorded backends of one request: none, the one id, or all of them.
+func routerHits(hits []string) string {
+	if len(hits) == 0 {
+		return "none"
+	}
+	for _, h := range hits {
+		if h != hits[0] {
+			return "many:" + strings.Join(hits, "+")
+		}
+	}
+	return hits[0]
+}
+
+// a spelling of a host name: letter case, trailing dot and port suffix are chosen independently
+func genSpelling(rng *rand.Rand, name string) (string, string, string) {
+	switch rng.Intn(4) {
+	case 0:
+		name = strings.ToUpper(name)
+	case 1:
+		b := []byte(name)
+		for i := range b {
+			if rng.Intn(2) == 0 && b[i] >= 'a' && b[i] <= 'z' {
+				b[i] -= 32
+			}
+		}
+		name = string(b)
+	}
+	dot := "0"
+	if rng.Intn(2) == 0 {
+		dot = "1"
+	}
+	port := "-"
+	switch rng.Intn(8) {
+	case 0, 1:
+		port = hx("80")
+	case 2:
+		port = hx("8080")
+	case 3:
+		port = hx("443")
+	case 4:
+		port = hx(pick(rng, []string{"", "0", "65535", "x", "8:0", "]"}))
+	}
+	return name, dot, port
 }
 
 var (
@@ -169,8 +272,11 @@ func routerGen(rng *rand.Rand, n int, emit func(string)) {
 			emit("add " + hx(genHost(rng)) + " " + hx(pick(rng, rLocs)) + " " + hx(pick(rng, rUsers)) + " " + strconv.Itoa(id))
 		case k < 32:
 			emit("del " + hx(genHost(rng)) + " " + hx(pick(rng, rLocs)) + " " + hx(pick(rng, rUsers)))
-		case k < 62:
+		case k < 50:
 			emit("get " + hx(genHost(rng)) + " " + hx(genPath(rng)) + " " + hx(pick(rng, rUsers)))
+		case k < 62:
+			nm, dot, port := genSpelling(rng, genHost(rng))
+			emit("hreq " + hx(nm) + " " + dot + " " + port + " " + hx(genPath(rng)) + " " + hx(pick(rng, rUsers)))
 		case k < 72:
 			id++
 			live = append(live, id)
@@ -181,8 +287,14 @@ func routerGen(rng *rand.Rand, n int, emit func(string)) {
 				emit("mdel " + strconv.Itoa(live[j]))
 				live = append(live[:j], live[j+1:]...)
 			}
-		case k < 95:
+		case k < 92:
 			emit("mget " + hx(genHost(rng)) + " " + hx(genPath(rng)) + " " + hx(pick(rng, rUsers)))
+		case k < 97:
+			nm, dot, port := genSpelling(rng, genHost(rng))
+			if rng.Intn(8) == 0 {
+				nm = pick(rng, []string{"[::1]", "a.b.", "a:b", "", ".", "a..", "[a.b]"})
+			}
+			emit("spell " + hx(nm) + " " + dot + " " + port)
 		default:
 			h := genHost(rng)
 			h += pick(rng, []string{"", "", ":80", ".", ".:8080", ":", ":x:y", "]:1"})
